@@ -22,12 +22,14 @@ import (
 type vfPut struct {
 	sleep time.Duration // virtual sleep before the Put
 	off   time.Duration // deadline = now + off
+	busy  time.Duration // the task's function takes this much (virtual) time: the worker is busy meanwhile
 }
 
 type vfTask struct {
 	id       string
 	putAt    time.Duration
 	deadline time.Duration
+	busy     time.Duration
 	runs     []time.Duration
 }
 
@@ -44,7 +46,7 @@ type vfC17Scenario struct {
 
 func vfC17Scenarios(thorough bool) []vfC17Scenario {
 	ms := time.Millisecond
-	p := func(sleep, off time.Duration) vfPut { return vfPut{sleep, off} }
+	p := func(sleep, off time.Duration) vfPut { return vfPut{sleep, off, 0} }
 	sc := []vfC17Scenario{
 		{"1x2 increasing", [][]vfPut{{p(0, 5*ms), p(0, 10*ms)}}},
 		{"1x2 decreasing", [][]vfPut{{p(0, 10*ms), p(0, 5*ms)}}},
@@ -62,6 +64,11 @@ func vfC17Scenarios(thorough bool) []vfC17Scenario {
 		{"2x1 near / arrival at expiry", [][]vfPut{{p(0, 5*ms)}, {p(5*ms, 5*ms)}}},
 		{"2x1 near / past at expiry", [][]vfPut{{p(0, 5*ms)}, {p(5*ms, -1*ms)}}},
 		{"2x2 crossing", [][]vfPut{{p(0, 10*ms), p(0, 5*ms)}, {p(0, 5*ms), p(0, vfFar)}}},
+		// a task function that takes time: deadlines pass and new tasks arrive while the worker is busy
+		{"busy worker: timer fires and a task arrives meanwhile", [][]vfPut{{p(0, 5*ms), p(0, 10*ms)}, {{6 * ms, -1 * ms, 8 * ms}, {1 * ms, 30 * ms, 0}}}},
+		{"busy worker: two deadlines pass meanwhile", [][]vfPut{{{0, 5 * ms, 12 * ms}, p(0, 8*ms), p(0, 10*ms), p(0, 40*ms)}}},
+		// six pending tasks with zig-zag deadlines (the heap's shape matters from six on)
+		{"1x6 zig-zag", [][]vfPut{{p(0, 3*ms), p(0, 15*ms), p(0, 5*ms), p(0, 7*ms), p(0, 17*ms), p(0, 19*ms)}}},
 		{"1x2 never,near", [][]vfPut{{p(0, vfNever), p(0, 5*ms)}}},
 		{"1x3 near,never,far", [][]vfPut{{p(0, 5*ms), p(0, vfNever), p(0, vfFar)}}},
 		{"2x1 never,near", [][]vfPut{{p(0, vfNever)}, {p(0, 5*ms)}}},
@@ -75,6 +82,27 @@ func vfC17Scenarios(thorough bool) []vfC17Scenario {
 		)
 	}
 	return sc
+}
+
+// vfC17Due: the instant from which a task can run: its deadline, or the moment it was put, or — with a single worker —
+// the end of a busy period (a task function that takes time) that covers that instant.
+func vfC17Due(t *vfTask, all []*vfTask, workers int) time.Duration {
+	due := max(t.deadline, t.putAt)
+	if workers != 1 {
+		return due
+	}
+	// a task that falls due while the worker is busy, or shortly afterwards, waits for the worker and then for a timer that
+	// was computed from the time the busy task started (the scheduler reads the clock once per wake-up): allow twice the busy
+	// time; tasks due after that window must be exact again
+	for changed := true; changed; {
+		changed = false
+		for _, o := range all {
+			if o != t && o.busy > 0 && len(o.runs) == 1 && o.runs[0] <= due && due < o.runs[0]+2*o.busy {
+				due, changed = o.runs[0]+2*o.busy, true
+			}
+		}
+	}
+	return due
 }
 
 func vfC17Run(sc vfC17Scenario, parallel int, async bool, early int8) explore.RunFunc {
@@ -104,11 +132,16 @@ func vfC17Run(sc vfC17Scenario, parallel int, async bool, early int8) explore.Ru
 						if p.sleep > 0 {
 							vrt.Sleep(p.sleep)
 						}
-						t := &vfTask{id: fmt.Sprintf("s%dp%d", si, pi)}
+						t := &vfTask{id: fmt.Sprintf("s%dp%d", si, pi), busy: p.busy}
 						t.putAt = time.Duration(vrt.NowNS())
 						t.deadline = t.putAt + p.off
 						tasks = append(tasks, t)
-						ts.Put(func() { t.runs = append(t.runs, time.Duration(vrt.NowNS())) }, vrt.Epoch0.Add(t.deadline))
+						ts.Put(func() {
+							t.runs = append(t.runs, time.Duration(vrt.NowNS()))
+							if t.busy > 0 {
+								vrt.Sleep(t.busy)
+							}
+						}, vrt.Epoch0.Add(t.deadline))
 					}
 				})
 			}
@@ -125,8 +158,8 @@ func vfC17Run(sc vfC17Scenario, parallel int, async bool, early int8) explore.Ru
 					bad("C17:task-ran-more-than-once", "task %s ran %d times", t.id, len(t.runs))
 				case len(t.runs) == 1 && t.runs[0] < t.deadline:
 					bad("C17:task-ran-early", "task %s ran at %s, before its deadline %s", t.id, vfMs(t.runs[0]), vfMs(t.deadline))
-				case near && earlyFires == 0 && t.runs[0]-max(t.deadline, t.putAt) > time.Microsecond:
-					bad("C17:task-ran-late", "task %s (deadline %s, put at %s) ran at %s although no thread was ever delayed", t.id, vfMs(t.deadline), vfMs(t.putAt), vfMs(t.runs[0]))
+				case near && earlyFires == 0 && t.runs[0]-vfC17Due(t, tasks, parallel) > time.Microsecond:
+					bad("C17:task-ran-late", "task %s (deadline %s, put at %s) ran at %s although no thread was ever delayed and the worker was free from %s on", t.id, vfMs(t.deadline), vfMs(t.putAt), vfMs(t.runs[0]), vfMs(vfC17Due(t, tasks, parallel)))
 				}
 			}
 			// let the far-future tasks come due
@@ -198,16 +231,65 @@ func vfC17(c *hx.Ctx) {
 	}
 	cfgs := []cfg{{1, false, 1}, {2, false, 1}, {1, true, 1}, {2, true, -1}}
 	c.ByUnit = true
+	vfC17Perms(c)
 	total := (len(scs)*len(cfgs) + c.Of - 1) / max(c.Of, 1)
 	left := time.Until(c.Deadline)
 	for _, sc := range scs {
 		for _, cf := range cfgs {
+			if strings.HasPrefix(sc.name, "busy worker") && cf.parallel != 1 {
+				continue // with several workers a busy one does not hold the others back: the due time would need the task-to-worker assignment
+			}
 			name := fmt.Sprintf("%s/workers=%d/asynctimerchan=%v/early=%d", sc.name, cf.parallel, cf.async, cf.early)
 			c.UnitBudget = left / time.Duration(total)
 			b := bound
 			c.Explore(name, map[string]any{"scenario": sc.name, "workers": cf.parallel, "asynctimerchan": cf.async, "preemption_bound": b}, b,
 				vfC17Run(sc, cf.parallel, cf.async, cf.early))
 		}
+	}
+}
+
+// vfC17Perms: one submitter hands a worker 6 (thorough: 7) pending tasks in EVERY order of their distinct deadlines (the
+// shape of the worker's heap depends on the arrival order); the order is an environment choice, the schedule the default one.
+func vfC17Perms(c *hx.Ctx) {
+	n := hx.Pick(c, 6, 7)
+	var perms [][]int
+	var gen func(cur []int, used int)
+	gen = func(cur []int, used int) {
+		if len(cur) == n {
+			perms = append(perms, append([]int{}, cur...))
+			return
+		}
+		for i := 0; i < n; i++ {
+			if used>>i&1 == 0 {
+				gen(append(cur, i), used|1<<i)
+			}
+		}
+	}
+	gen(nil, 0)
+	for _, async := range []bool{false, true} {
+		async := async
+		run := func(e *explore.Exec) explore.Verdict {
+			var which int
+			var sc vfC17Scenario
+			// the permutation is the first choice of the execution; the scenario is then run like any other
+			which = e.Choose(vrt.KEnv, len(perms), nil, "arrival order of the deadlines")
+			var puts []vfPut
+			for _, k := range perms[which] {
+				puts = append(puts, vfPut{0, time.Duration(3+2*k) * time.Millisecond, 0})
+			}
+			sc = vfC17Scenario{fmt.Sprintf("order %v", perms[which]), [][]vfPut{puts}}
+			v := vfC17Run(sc, 1, async, -1)(e)
+			if v.Violation != "" {
+				v.Violation = fmt.Sprintf("deadlines arriving in the order %v (x2 ms + 3 ms): %s", perms[which], v.Violation)
+				v.Signature += ":arrival-order-of-six-or-more-pending-tasks"
+			}
+			return v
+		}
+		c.UnitBudget = 20 * time.Second
+		saved := hx.NoCache
+		hx.NoCache = true // the order is chosen before the execution starts: it is not part of the happens-before fingerprint
+		c.Explore(fmt.Sprintf("every arrival order of %d pending tasks/workers=1/asynctimerchan=%v", n, async), map[string]any{"tasks": n, "orders": len(perms), "workers": 1, "asynctimerchan": async}, 0, run)
+		hx.NoCache = saved
 	}
 }
 
